@@ -1,21 +1,31 @@
 (* C11 — replay of implementation observations: the acceptor of Spec.v is
-   evaluated on what every subscriber of the real SubscriptionManager saw
-   (kind 2), and for cases without racing operations the handler-level
-   action list of the harness is run through the model and compared
-   (kind 1). *)
+   evaluated on what every subscriber of the real SubscriptionManager saw,
+   at the end of the run and in snapshots taken during it (kind 2), and for
+   cases without racing operations the handler-level action list of the
+   harness — NewSubscription calls (id taken) and their handling
+   (registration or failure) as separate actions, so that calls overlap — is
+   run through the keyed model (ModelK.v) and compared (kind 1). *)
 From Coq Require Import ZArith List Bool Arith.
-From Verif Require Import C11.Model C11.Spec.
+From Verif Require Import C11.Model C11.Spec C11.ModelK.
 Import ListNotations.
 Open Scope Z_scope.
 
 (* handler-level actions in compact form: AEmits a n = n emissions a, a+1, .. *)
-Inductive cact := AEmits (a n : Z) | AReg (b : list Z) | ACancel (i : nat) | AStop.
+Inductive cact :=
+| AEmits (a n : Z)
+| ACall                      (* a NewSubscription call starts: id taken *)
+| AReg (k : nat) (b : list Z)  (* the handler registers the k-th call in progress, backlog b *)
+| AFail (k : nat)            (* the k-th call in progress ends without registration *)
+| ACancel (i : nat)          (* Cancel() of the i-th registered subscription *)
+| AStop.
 
 Record case := mkCase {
   c_emitted : list Z;     (* global emission order (events the handler accepted) *)
   c_det : bool;           (* no asynchronous operation: c_acts is the handler's order *)
   c_acts : list cact;
-  c_subs : list sobs      (* successful subscriptions in registration order *)
+  c_subs : list sobs;     (* successful subscriptions in registration order, at the end *)
+  c_snaps : list sobs     (* observations of a subscriber during the run (at the moment
+                             its consumer saw the channel closed) *)
 }.
 
 (* compact literals: a list is written as runs (first, length) of consecutive
@@ -26,12 +36,14 @@ Definition unruns (rs : list (Z * Z)) : list Z :=
   flat_map (fun r => let '(a, n) := r in
      if (0 <=? n) && (n <=? 1000000) then zseq a (Z.to_nat n) else []) rs.
 
-Definition expand (cs : list cact) : list act :=
+Definition expand (cs : list cact) : list kact :=
   flat_map (fun c => match c with
-    | AEmits a n => map (fun e => Emit e []) (unruns [(a, n)])
-    | AReg b => [Register b]
-    | ACancel i => [Cancel i]
-    | AStop => [StopBegin; StopEnd]
+    | AEmits a n => map (fun e => KEmit e []) (unruns [(a, n)])
+    | ACall => [KSubCall]
+    | AReg k b => [KSubHandled k b]
+    | AFail k => [KSubFailed k]
+    | ACancel i => [KCancel i]
+    | AStop => [KStopBegin; KStopEnd]
     end) cs.
 
 Fixpoint list_eqb (a b : list Z) : bool :=
@@ -68,17 +80,30 @@ Fixpoint disagree (i : Z) (us : list sub) (os : list sobs) : list Z :=
   | _, _ => [i]
   end.
 
+(* snapshots: only the acceptor `admissible` (sound in every reachable state) *)
+Fixpoint rejected_snap (E : list Z) (i : Z) (os : list sobs) : list Z :=
+  match os with
+  | [] => []
+  | o :: r => (if admissible E o then [] else [i]) ++ rejected_snap E (i + 1) r
+  end.
+
 Definition model_mismatch (c : case) : list Z :=
   if c_det c then
-    let s := run (expand (c_acts c)) init in
-    (if list_eqb (emitted s) (c_emitted c) then [] else [-1]) ++ disagree 0 (subs s) (c_subs c)
+    let ks := krun (expand (c_acts c)) kinit in
+    let s := base ks in
+    (if list_eqb (emitted s) (c_emitted c) then [] else [-1]) ++
+    (* every call of the history has ended *)
+    (match pend ks with [] => [] | _ => [-2] end) ++
+    disagree 0 (subs s) (c_subs c)
   else [].
 
-(* rows (case id, kind, step, tag): step = subscriber index; there is no
-   ghost root-cause flag in this model, tag is always 0 *)
+(* rows (case id, kind, step, tag): step = subscriber index (1000 + index of
+   the snapshot for snapshots); there is no ghost root-cause flag in this
+   model, tag is always 0 *)
 Definition verdict (c : Z * case) : list (Z * Z * Z * Z) :=
   let '(id, cs) := c in
   map (fun i => (id, 1, i, 0)) (model_mismatch cs) ++
-  map (fun i => (id, 2, i, 0)) (rejected (c_emitted cs) 0 (c_subs cs)).
+  map (fun i => (id, 2, i, 0)) (rejected (c_emitted cs) 0 (c_subs cs)) ++
+  map (fun i => (id, 2, i, 0)) (rejected_snap (c_emitted cs) 1000 (c_snaps cs)).
 
 Definition run_cases (cs : list (Z * case)) : list (Z * Z * Z * Z) := flat_map verdict cs.
